@@ -6,7 +6,7 @@
    the generated case files of C03. *)
 From Coq Require Import String List NArith ZArith QArith Bool Floats.
 From Pcfg Require Import ProbAlg F64 QProb Str Multiword Detect Segment SegCorr TextFile Counters Reader Loader
-     Next NextSpec Expand IoCorr Pipeline.
+     Next NextSpec Expand IoCorr Pipeline PipelineSpec.
 From PcfgGen Require Import Consts_gen Unicode_gen.
 Import ListNotations.
 
@@ -58,6 +58,14 @@ Definition run_case (c : pipe_case) : option (loaded F64) :=
                (io_of (pk_repr c) (pk_pfloat c) (pk_unenc c) (pk_abort c))
                {| o_cov := pk_cov c : P F64; o_sensitive := false; o_multiword := [] |} (pk_raw c).
 
+(* the computable hypothesis of C03_reproduced_F64 on this training run *)
+Definition case_arith_ok (c : pipe_case) : bool :=
+  let E := env_of (utable_of (unicode_facts ++ pk_extra c)) in
+  match @train F64 E {| o_cov := pk_cov c : P F64; o_sensitive := false; o_multiword := [] |} (pk_raw c) with
+  | Some tr => f64_arith_ok E tr
+  | None => true
+  end.
+
 Definition group_eqb2 (a b : list TextFile.str * float) : bool :=
   leqb TextFile.str_eqb (fst a) (fst b) && fsame (snd a) (snd b).
 
@@ -71,11 +79,13 @@ Definition check_pipeline (c : pipe_case) : bool :=
       leqb (fun a b => TextFile.str_eqb (fst a) (fst b) && leqb group_eqb2 (snd a) (snd b)) (l_grammar L) g &&
       leqb (fun (a : bstruct F64) (b : float * list TextFile.str) => fsame (bprob a : float) (fst b) && leqb TextFile.str_eqb (names_of L a) (snd b)) (bases (l_rs L)) bs &&
       leqb TextFile.str_eqb
-           (ssort (printed RF (env_of (utable_of (unicode_facts ++ pk_extra c))) pop_first_max L)) guesses
+           (ssort (printed RF (env_of (utable_of (unicode_facts ++ pk_extra c))) pop_first_max L)) guesses &&
+      case_arith_ok c
   | _, _ => false
   end.
 
-(* which part differs (for the report) : 0 ok, 1 loadability, 2 grammar, 3 base structures, 4 guesses *)
+(* which part differs (for the report) : 0 ok, 1 loadability, 2 grammar, 3 base structures, 4 guesses,
+   5 the float sanity check f64_arith_ok is false on this run *)
 Definition diagnose (c : pipe_case) : nat :=
   match run_case c, pk_exp c with
   | None, None => 0
@@ -84,6 +94,7 @@ Definition diagnose (c : pipe_case) : nat :=
       else if negb (leqb (fun (a : bstruct F64) (b : float * list TextFile.str) => fsame (bprob a : float) (fst b) && leqb TextFile.str_eqb (names_of L a) (snd b)) (bases (l_rs L)) bs) then 3
       else if negb (leqb TextFile.str_eqb
                      (ssort (printed RF (env_of (utable_of (unicode_facts ++ pk_extra c))) pop_first_max L)) guesses) then 4
+      else if negb (case_arith_ok c) then 5
       else 0
   | _, _ => 1
   end%nat.
